@@ -139,7 +139,8 @@ def describe_doc(doc):
 
 # ---------------------------------------------------------------------------------------------- runner
 def run_doc_check(prop, tier, seed, driver_ok, *, n_quick, n_thorough, profiles, work, oracle, driver_line=None,
-                  compare=None, classify=None, witnesses=(), rule="", nontrivial=None, assumptions=(), extra_cases=()):
+                  compare=None, classify=None, witnesses=(), rule="", nontrivial=None, assumptions=(), extra_cases=(),
+                  keep_results=False):
     """profiles: list of (name, profile dict, weight). work(case)->result dict (top-level function).
     oracle(result)->list of failure strings. classify(case)->finding key or None (open findings' domains)."""
     n = {"quick": n_quick, "thorough": n_thorough, "search": 3 * n_quick}[tier]
@@ -222,4 +223,5 @@ def run_doc_check(prop, tier, seed, driver_ok, *, n_quick, n_thorough, profiles,
         "input_distribution": dist,
         "out_of_domain": dist["out_of_domain"],
         "assumptions": list(assumptions),
+        **({"_results": usable} if keep_results else {}),
     }
